@@ -79,6 +79,11 @@ FIXED += [
   'a registry package offering only version 0.0.0 (allowed set: all) failed with "no available version matches"'),
 ]
 
+FIXED += [
+ ("C09", "accessor-not-deterministic", "fix: make SourceForLocalPath deterministic when aliases have equally long addresses",
+  'SourceForLocalPath chose among equally long alias addresses by map iteration order (different answers for the same path)'),
+]
+
 OPEN = [
  ("C04", "dotdot-after-symlink-component",
   'a link whose target applies ".." after a component that is itself a symlink in dst (e.g. "d/l -> .." together with "m -> d/l/../secret", in either order) is accepted because targets are validated lexically; the operating system resolves m to a location outside dst. No entry can be written through such a link any more (see the fixed C01 entries), but the link itself remains'),
